@@ -72,6 +72,10 @@ def sites(ctx, files):
         # H3
         if f.kind == "coroutine" or f.locals[0].s.startswith(("std::result::Result<", "std::task::Poll<std::result::Result<")):
             rets = [b for b, _ in Q.return_blocks_maybe_ok(ctx, f)]
+            if f.locals[0].s.startswith("std::result::Result<"):
+                # a Result-returning body: only blocks where the result may become Ok (an Err stored by an inlined helper
+                # and moved into the return place at the join is not a success)
+                rets = Q.success_return_blocks(ctx, f)
             if rets:
                 for bb in range(len(f.blocks)):
                     si = T.switch_info(bb)
